@@ -103,10 +103,10 @@ def run(ck, prog):
     for meth in ("FCR", "NCPR", "Fplus", "Fminus"):
         g = prog.fn(SEQ, "Sequence." + meth)
         _single_rounding(ck, g, prog)
-    _compare_discipline(ck, prog, f)
+    ck.attempt(_compare_discipline, ck, prog, f)
     # (5) annotation
-    _annotation(ck, prog, pair)
-    check_api(ck, prog, [("get_phasePlotRegion", "phasePlotRegion", None)])
+    ck.attempt(_annotation, ck, prog, pair)
+    ck.attempt(check_api, ck, prog, [("get_phasePlotRegion", "phasePlotRegion", None)])
     ck.floor("code paths", len(code), 5)
     ck.sample({"code_table": describe_rows(code, 8)})
 
@@ -209,8 +209,22 @@ def _compare_discipline(ck, prog, f):
             return isinstance(x.func, ast.Attribute) and not x.args
         return False
 
-    def arithmetic_on_fractions(x):
-        return isinstance(x, ast.BinOp) and len(_float_calls(x)) + sum(1 for n in ast.walk(x) if isinstance(n, ast.Name) and isinstance(local_calls.get(n.id), ast.Call)) >= 2
+    def arithmetic_on_fractions(x, depth=0):
+        # looked at through locals: `fcr = fplus + fminus` with fplus = self.Fplus() is arithmetic on two already-rounded quotients
+        while isinstance(x, ast.Call) and getattr(x.func, "id", None) in ("abs", "float") and len(x.args) == 1:
+            x = x.args[0]
+        if isinstance(x, ast.Name) and depth < 3 and local_calls.get(x.id) is not None:
+            return arithmetic_on_fractions(local_calls[x.id], depth + 1)
+
+        def frac_operands(e):
+            k = len(_float_calls(e))
+            for n in ast.walk(e):
+                if isinstance(n, ast.Name):
+                    v = local_calls.get(n.id)
+                    if isinstance(v, ast.Call) and isinstance(v.func, ast.Attribute) and v.func.attr in ("Fplus", "Fminus", "FCR", "NCPR", "FER"):
+                        k += 1
+            return k
+        return isinstance(x, ast.BinOp) and isinstance(x.op, (ast.Add, ast.Sub, ast.Mult)) and frac_operands(x) >= 2
     n = 0
     for c in ast.walk(f.node):
         if isinstance(c, ast.Compare):
